@@ -75,9 +75,9 @@ def rotation_matrix(alpha, beta, gamma, radians = True):
 
     """
     if not radians:
-        alpha *= pi/180.
-        beta *= pi/180.
-        gamma *= pi/180.
+        alpha = alpha * (pi/180.)
+        beta = beta * (pi/180.)
+        gamma = gamma * (pi/180.)
 
     ca = cos(alpha)
     sa = sin(alpha)
